@@ -69,6 +69,20 @@ def judge_ci(case):
     if (lo, hi) != tuple(again) or (lo, hi) != tuple(third) or z != z_again:
         viol.append("confidence_interval(%r,%r,%r,%r) is not repeatable: %r, then %r, then %r (z %r / %r)"
                     % (n, p, conf, method, (lo, hi), again, third, z, z_again))
+    # the same numbers handed over in another numeric type (p = 0 / 1 as int, n as float) mean the same thing
+    alts = []
+    if p in (0.0, 1.0):
+        alts.append(("p as the int %d" % int(p), (n, int(p), conf, method)))
+    if isinstance(n, int) and n < 2 ** 53:
+        alts.append(("n as the float %r" % float(n), (float(n), p, conf, method)))
+    for what, args in alts:
+        try:
+            r = tuple(S.confidence_interval(*args))
+        except Exception as e:
+            viol.append("%s: raised %s: %s (n=%r p=%r conf=%r %s)" % (what, type(e).__name__, e, n, p, conf, method))
+            continue
+        if not (_close(r[0], lo) and _close(r[1], hi)):
+            viol.append("%s gives %r, the float / int form gives %r (n=%r p=%r conf=%r %s)" % (what, r, (lo, hi), n, p, conf, method))
     elo, ehi = _textbook(n, p, conf, method, z)
     if not (_close(lo, elo) and _close(hi, ehi)):
         viol.append("(%r, %r) differs from the textbook %s interval (%r, %r) with z=%r for n=%r p=%r conf=%r"
